@@ -1,6 +1,11 @@
 """C13 — Thread start/join, ThreadGroup, parallel_for, Semaphore, Condition: plugin for tools/check.py"""
+import os
+import re
+import subprocess
+import tempfile
+
 from lib import core
-from lib.engine import Failure
+from lib.engine import Failure, TranslateError
 
 ID = "C13"
 PROPS_MODULE = "AslProps.C13"
@@ -13,13 +18,137 @@ RULE = ("(1) parallel_for(i0,i1,f,nth) on the real library for ranges -3 <= i0,i
         "empty bodies and scheduling jitter: run counts and finished() after join; (3) semaphore op sequences, concurrent "
         "post/wait, the documented condition-variable protocol; (4) all interleavings of creator and workers at the library's "
         "hand-over hook points for small scenarios, enumerated by a deterministic scheduler; every recorded trace must be accepted "
-        "by the Lean hand-over model (trace inclusion). Non-trivial = case that starts at least one thread")
-TRUSTED = ["harness/vsched.h deterministic scheduler over the ASL_VERIF hook points in Thread.h (hooks: /verif/hooks_commits.txt)",
+        "by the Lean hand-over model (trace inclusion); (5) at the library's own -O3 with the hooks off: three injected schedules "
+        "(harness/c13_handover_o3.cpp single-steps a worker with the x86 trap flag and deschedules it right after its store of "
+        "`ready` — lambda thread, parallel_for — or of `finished` — an owner that polls finished() and deletes the object), and "
+        "free-running owners that never join (`thr reap`, ASan+UBSan). Non-trivial = case that starts at least one thread")
+TRUSTED = ["tools/props/c13.py translate(): statement order in Thread::begin / beginf / beginfN (regex over the source, TranslateError on anything "
+           "unrecognised) and the instruction order g++ -O3 emits for the two trampolines with the hooks off -> lean/Gen/ThreadGen.lean",
+           "harness/c13_handover_o3.cpp (interposed pthread_create, trap-flag single-stepping; x86-64 only)",
+           "harness/vsched.h deterministic scheduler over the ASL_VERIF hook points in Thread.h (hooks: /verif/hooks_commits.txt)",
            "the trace acceptor in lean/Driver/C13.lean (maps hook events to model steps)"]
 ASSUMPTIONS = ["pthread_create starts the function exactly once; pthread_join returns after the thread has exited and makes its writes visible",
                "sem_post/sem_wait and pthread_cond_wait/broadcast behave as POSIX specifies (modelled, not verified)",
                "volatile bool ready/finished flags are read and written atomically with sequential consistency (x86-64)",
                "no int overflow in i += n (|i1| + nth < 2^31)"]
+
+
+O3_PROBE = r"""
+#include <asl/Thread.h>
+using namespace asl;
+static long ra, rb, rc, rd; static double* re;
+__attribute__((noinline)) void sink(long a, long b, long c, long d, double* e) { ra=a; rb=b; rc=c; rd=d; re=e; }
+__attribute__((noinline)) Thread* make(long a, long b, long c, long d, double* e) { return new Thread([=]{ sink(a,b,c,d,e); }); }
+int hits[8];
+void pf() { long a=3,b=5; int* h=hits; Thread::parallel_for(0,4,[=](int i){ h[i]+=(int)(a*i+b); },4); }
+"""
+
+
+def body_of(txt, head_rx):
+    m = re.search(head_rx, txt)
+    if not m:
+        return None
+    i = txt.index("{", m.end() - 1)
+    depth = 0
+    for j in range(i, len(txt)):
+        if txt[j] == "{":
+            depth += 1
+        elif txt[j] == "}":
+            depth -= 1
+            if depth == 0:
+                return txt[i + 1:j]
+    return None
+
+
+def strip_hooks(b):
+    b = re.sub(r"#ifdef ASL_VERIF.*?#endif", "", b, flags=re.S)
+    b = re.sub(r"//[^\n]*", "", b)
+    return [x.strip() for x in b.replace("\r", "").split(";") if x.strip()]
+
+
+def asm_fenced(repo):
+    """compile the trampolines as the library does (-O3, hooks off) and look at the instruction order: every read of the
+    creator's context (operands based on the argument register) must come before a barrier that comes before the store of
+    `ready`"""
+    with tempfile.TemporaryDirectory(prefix="c13o3-") as d:
+        src = os.path.join(d, "p.cpp")
+        open(src, "w").write(O3_PROBE)
+        r = subprocess.run(["g++", "-std=c++11", "-O3", "-S", "-I", os.path.join(repo, "include"), src, "-o", os.path.join(d, "p.s")],
+                           stdout=subprocess.PIPE, stderr=subprocess.PIPE)
+        if r.returncode != 0:
+            raise TranslateError("cannot compile the -O3 probe of Thread.h: " + r.stderr.decode()[-600:])
+        asm = open(os.path.join(d, "p.s")).read()
+    res = {}
+    for name in ("beginf", "beginfN"):
+        m = re.search(r"^(_ZN3asl6Thread%d%sI\w+):\n(.*?)\.cfi_endproc" % (len(name), name), asm, flags=re.S | re.M)
+        if not m:
+            raise TranslateError("the -O3 probe has no out-of-line %s" % name)
+        lines = [l.strip() for l in m.group(2).split("\n") if l.strip() and not l.strip().startswith(".")]
+        fence = store = None
+        late = False
+        rdi_is_arg = True
+        for k, l in enumerate(lines):
+            if re.match(r"(mfence|lock\b)", l) and store is None and fence is None:
+                fence = k
+            if store is None and re.match(r"movb\s+\$1,\s*-?\d*\(%rdi\)", l) and rdi_is_arg:
+                store = k
+                continue
+            if rdi_is_arg and re.search(r"-?\d*\(%rdi\)\s*,", l) and (fence is not None or store is not None):
+                late = True          # a read based on the argument register after the barrier or after the store
+            if re.search(r",\s*%[re]di$", l) and not re.match(r"(test|cmp)", l):
+                rdi_is_arg = False
+        if store is None:
+            raise TranslateError("no store of `ready` found in %s at -O3" % name)
+        res[name] = (fence is not None and fence < store and not late)
+    return res
+
+
+def translate(repo):
+    txt = open(os.path.join(repo, "include", "asl", "Thread.h"), encoding="latin-1").read()
+    facts = {}
+    for name in ("beginf", "beginfN"):
+        b = body_of(txt, r"static\s+void\s+ASL_THREADFUNC_API\s+%s\s*\(\s*void\s*\*\s*p\s*\)\s*\{" % name)
+        if b is None:
+            raise TranslateError("Thread.h: cannot find %s" % name)
+        st = strip_hooks(b)
+        try:
+            ic = next(i for i, x in enumerate(st) if re.fullmatch(r"Context<Func>\s+s\s*=\s*\*\s*\(Context<Func>\s*\*\)\s*p", x))
+            ir = next(i for i, x in enumerate(st) if re.fullmatch(r"\(\(Context<Func>\s*\*\)\s*p\)\s*->\s*ready\s*=\s*true", x))
+        except StopIteration:
+            raise TranslateError("Thread.h %s: context copy / ready store not recognised: %r" % (name, st[:6]))
+        between = st[ic + 1:ir] if ic < ir else None
+        facts[name] = between is not None and any(re.fullmatch(r"(atomicFence\s*\(\s*\)|__sync_synchronize\s*\(\s*\))", x) for x in between)
+    b = body_of(txt, r"static\s+ASL_THREADFUNC_RET\s+ASL_THREADFUNC_API\s+begin\s*\(\s*void\s*\*\s*p\s*\)\s*\{")
+    if b is None:
+        raise TranslateError("Thread.h: cannot find begin")
+    st = strip_hooks(b)
+    def idx(rx):
+        l = [i for i, x in enumerate(st) if re.fullmatch(rx, x)]
+        return l[0] if len(l) == 1 else None
+    i_run, i_end = idx(r"t\s*->\s*run\s*\(\s*\)"), idx(r"t\s*->\s*ended\s*\(\s*\)")
+    i_flag_st, i_flag_obj = idx(r"st\s*->\s*finished\s*=\s*true"), idx(r"t\s*->\s*_state\s*->\s*finished\s*=\s*true")
+    i_take, i_inc, i_rel = idx(r"State_\s*\*\s*st\s*=\s*t\s*->\s*_state"), idx(r"\+\+\s*st\s*->\s*rc"), idx(r"releaseState\s*\(\s*st\s*\)")
+    if i_run is None or i_end is None or (i_flag_st is None) == (i_flag_obj is None):
+        raise TranslateError("Thread.h begin(): statements not recognised: %r" % st)
+    i_flag = i_flag_st if i_flag_st is not None else i_flag_obj
+    holds = i_flag_st is not None and None not in (i_take, i_inc, i_rel) and i_take < i_inc < i_run and i_flag < i_rel
+    if i_flag_st is not None and not holds:
+        raise TranslateError("Thread.h begin(): the flag is written through `st` but the reference is not taken before run() and released after the flag: %r" % st)
+    asm = asm_fenced(repo)
+    B = lambda x: "true" if x else "false"
+    out = "/- GENERATED by tools/props/c13.py from include/asl/Thread.h (statement order in begin / beginf / beginfN) and from the\n"
+    out += "   assembly g++ -O3 produces for the two trampolines with the hooks off — do not edit -/\nnamespace Gen.Thread\n\n"
+    out += "/-- a barrier stands between the copy of the creator's context and `ready = true` (source text) -/\n"
+    out += "def fencedInSource : List (String × Bool) := [(\"beginf\", %s), (\"beginfN\", %s)]\n\n" % (B(facts["beginf"]), B(facts["beginfN"]))
+    out += "/-- in the code g++ -O3 emits, every read of the context precedes a barrier that precedes the store of `ready` -/\n"
+    out += "def fencedAtO3 : List (String × Bool) := [(\"beginf\", %s), (\"beginfN\", %s)]\n\n" % (B(asm["beginf"]), B(asm["beginfN"]))
+    out += "/-- `Thread::begin`: `t->ended()` comes before `finished = true` -/\ndef endedFirst : Bool := %s\n\n" % B(i_end < i_flag)
+    out += "/-- `Thread::begin` takes its own reference on the shared state before `run()`, writes the flag through it and releases it last -/\n"
+    out += "def holdsState : Bool := %s\n\nend Gen.Thread\n" % B(holds)
+    return {"Gen/ThreadGen.lean": out}
+
+
+FALLBACK = {}
 
 
 def gen(rng, tier):
@@ -52,6 +181,9 @@ def gen(rng, tier):
     # copies of started function threads (join and finished() through the copy, original destroyed first in `cpd`)
     for n in ([1, 3] if tier == "quick" else [1, 2, 3, 5, 8]):
         cases.append(["thr cpy %d %d" % (n, 3 if tier == "quick" else 40), "thr cpd %d %d" % (n, 3 if tier == "quick" else 40), "thr cpj %d 2" % n])
+    # owners that never join: they poll finished() and delete the thread object as soon as it is true (free-running, ASan+UBSan)
+    for n in ([8, 24] if tier == "quick" else [8, 24, 32, 32, 32, 32]):
+        cases.append(["thr reap %d %d" % (n, 6 if tier == "quick" else 150)])
     # ranges at the ends of the int range: the index i += n must not wrap
     for (a, b) in [(2147483637, 2147483647), (2147483640, 2147483647), (-2147483648, -2147483640), (2147483646, 2147483647),
                    (2147483647, -2147483647), (2147483645, -2147483645), (2147483647, -2147483648), (7, -2147483648), (5, 5), (9, 5)]:
@@ -74,8 +206,52 @@ def distribution(cases):
     return {"ops_by_kind": d}
 
 
+def o3_schedules(ctx):
+    """(5) the library's own optimisation level, hooks off: harness/c13_handover_o3.cpp single-steps a worker (x86 trap flag)
+    and deschedules it right after its store of `ready` (lambda thread, parallel_for) or of `finished` (an owner that polls
+    and deletes): one injected schedule each, judged by the program's own result"""
+    src = os.path.join(core.ROOT, "harness", "c13_handover_o3.cpp")
+    os.makedirs(core.BUILD, exist_ok=True)
+    exe = os.path.join(core.BUILD, "c13_o3_%d" % os.getpid())
+    fails = []
+    r = subprocess.run(["g++", "-std=c++11", "-O3", "-w", "-I", os.path.join(core.REPO, "include"), src, "-lpthread", "-ldl", "-o", exe],
+                       stdout=subprocess.PIPE, stderr=subprocess.PIPE)
+    if r.returncode != 0:
+        f = Failure("obligation", ["o3 build"], clause="harness/c13_handover_o3.cpp does not build against the current headers: " + r.stderr.decode()[-400:])
+        f.name = "K(C13) -O3 hand-over schedules"
+        f.has_input = False
+        return [f], 0
+    ran = 0
+    try:
+        for mode, what in (([], "a lambda thread ran with stale captures: the creator's stack context was read after `ready` had been published"),
+                           (["x"], "parallel_for workers read a reused context (wrong indices / another thread's state released)"),
+                           (["reap"], "the thread object was used after finished() had become true and its owner had deleted it")):
+            for rep in range(3):
+                try:
+                    p = subprocess.run([exe] + mode, stdout=subprocess.PIPE, stderr=subprocess.STDOUT, timeout=60)
+                    out, rc = p.stdout.decode(errors="replace").strip().split("\n")[-1][:300], p.returncode
+                except subprocess.TimeoutExpired:
+                    out, rc = "timeout", 124
+                ran += 1
+                if rc != 0 or "PASS" not in out:
+                    f = Failure("diverge", ["o3 " + (mode[0] if mode else "lambda")], [out + " (exit %d)" % rc], ["PASS"], clause=what)
+                    f.name = "K(C13) -O3 hand-over schedules (harness/c13_handover_o3.cpp)"
+                    fails.append(f)
+                    break
+    finally:
+        try:
+            os.remove(exe)
+        except OSError:
+            pass
+    return fails, ran
+
+
 def extra(ctx):
     """(4) interleavings at the hand-over points: enumerate on the real library, then every trace must be accepted by the model"""
+    o3fails, o3ran = o3_schedules(ctx)
+    ctx["stats"]["o3_injected_schedules_run"] = o3ran
+    if o3fails:
+        return o3fails
     tier = ctx["tier"]
     budget = 400 if tier == "quick" else 50000
     scen = ["pfs 0 1 1 %d" % budget, "pfs 0 2 2 %d" % budget, "pfs -1 2 3 %d" % budget, "pfs 0 5 2 %d" % budget, "pfs 3 3 4 %d" % budget,
@@ -163,8 +339,18 @@ LEVEL_TEXT = ("Proved in Lean 4: for all integers i0, i1 and every nth >= 1 the 
               "number n of waiters with a broadcasting signal (condition_no_lost_signal, condition_no_lost_signal_n). Tie: the index "
               "loop, thread kinds and semaphore are compared op by op with the real library (all ranges -3..40 x nth), and every "
               "hook-point trace of the real creator/worker hand-over, enumerated over all interleavings of small scenarios by a "
-              "deterministic scheduler, must be accepted by the Lean model (trace inclusion).")
-LEVEL_NOTE = ("Trusted: pthread/sem/cond semantics as modelled, sequential consistency of the volatile flags, the scheduler harness and "
+              "deterministic scheduler, must be accepted by the Lean model (trace inclusion). Start fence and thread end (AslModel/"
+              "ThreadEnd.lean): with a barrier between the copy of the creator's context (any number of loads) and the store of "
+              "`ready`, no load ever reads the reused stack slot, in every interleaving (fenced_handover_never_stale; "
+              "unfenced_handover_stale is the code before 12ac8c3); with ended() first and the flag written through the thread's own "
+              "reference, neither a polling-and-deleting owner nor a self-deleting object ever leads to a use of the deleted object or "
+              "the released state, and the state's count is exactly (object alive) + (thread not over) (thread_end_safe; "
+              "flag_first_unsafe is the code before 8766189). That the source has the barrier, that g++ -O3 keeps every context read "
+              "before it, and the statement order in Thread::begin are regenerated obligations (handover_fenced_in_source, "
+              "handover_fenced_at_O3, thread_end_order).")
+LEVEL_NOTE = ("The hook points act as compiler barriers, so the scheduler harness cannot see what the optimiser does between two of them: "
+              "that is covered only by the -O3 assembly check, the three injected -O3 schedules and the Fence model. "
+              "Trusted: pthread/sem/cond semantics as modelled, sequential consistency of the volatile flags, the scheduler harness and "
               "the trace acceptor. The semaphore and condition models are abstractions of the POSIX primitives (asl only wraps them) "
               "and of the user protocol; spurious wake-ups are not modelled (the documented while(!pred) loop absorbs them). The index "
               "theorems are over the mathematical integers; since the repair 14af174 the loop index and the range width are "
